@@ -165,7 +165,8 @@ prop("C04", run="^TestC04", level="exploration",
      rule="hostile inputs for every decoding entry point of DESIGN.md Appendix B (frame x7 x {none,lz4,snappy}, 17 message codecs x 6 versions (also decoded under a different version), query/continuous-paging options, type descriptors incl. 524287-level nesting, "
           "22 primitive readers + ParseUuid, segments +-LZ4 with recomputed CRCs, lz4/snappy decompressors, datacodec.Decode for generated types into same-representation / other-representation / *interface{} / preferred / 14 deliberately wrong destinations, AuthCredentials.Unmarshal): "
           "a valid encoding (from the reference encoders, with field annotations) mutated by: annotated length/count/code/flags field := {-1,-2,MinInt32,0,1,2,0x7f,0x80,0xff,0x7fff,0x8000,0xffff,2^24,MaxInt32, true+-1, random} (one or two fields), truncation at a drawn offset, bit flip, byte insert/delete, "
-          "splice with another valid encoding, re-wrapping as an independently compressed body, or random bytes (0..64 KiB, occasionally 1 MiB). Each call runs in a worker process (3 GiB address space). Oracle: returns value or error; recovered panic, worker death not caused by memory exhaustion, or no return within 60 s twice = violation. "
+          "splice with another valid encoding, re-wrapping as an independently compressed body, or random bytes (0..64 KiB, occasionally 1 MiB); plus SWEEPS: for every 100th (thorough 25th) generated base encoding (frame, message, descriptor, value families) EVERY truncation point (all prefixes up to 2 KiB, beyond every field boundary +-1) "
+          "and EVERY annotated field (<= 24 per base, evenly spread) x every hostile value and its own value +-1, batched in one worker call that resumes behind items lost to memory exhaustion (base left after 16 such items). Each call runs in a worker process (3 GiB address space). Oracle: returns value or error; recovered panic, worker death not caused by memory exhaustion, or no return within 60 s twice = violation. "
           "Non-trivial = input differs from the valid encoding; distinct by (entry point, input hash)",
      assumptions=["memory exhaustion is not one of the property's failure modes: a worker killed by its address-space limit is counted as 'skipped: resource exhaustion', never as a violation",
                   "error-path nesting of type descriptors is capped at depth 1500 (the library's error wrapping is super-quadratic: slow but terminating); well-formed nesting goes to the 1 MiB maximum",
@@ -179,6 +180,8 @@ prop("C09", run="^TestC09", level="exploration",
      rule="histories over {send managed, send explicit k, deliver final / non-final page / unknown id, drain-and-refill} driven through a build-tagged shim over the library's in-flight handler and compared step by step with a reference model of the unanswered set: "
           "ALL histories of length 4 (thorough 6) over a 12-action alphabet for N=1,2,3; rapid-generated histories of 1..60 (10%: 200..2000) actions for N in {1,2,3,10,100,1000,32767}; concurrent rounds of 2..8 senders x 1..30 sends (0/30/100% caller-chosen ids from a small colliding set) + a responder, "
           "with rapid-generated schedules (yield / sleep / bounded rendez-vous) at the hook points between the duplicate check and the registration and after the response lookup; per-id counters of accepted-unanswered requests, conservation after drain. "
+          "Final responses take four forms (plain result, non-fatal error, last continuous page without / with a paging state). Socket level (worker-isolated): a real client connection with MaxInFlight=N in 1..12 and an independent MaxPending in 1..12 against a raw server peer, all versions x compression: N managed sends accepted with distinct ids in 1..N as seen ON THE WIRE, one more refused without blocking, "
+          "0..3 rounds answering a generated subset then refilling exactly that many, drain, N again. "
           "Non-trivial = history contains a refusal, an id reuse or a final response followed by further actions / any concurrent round; distinct by (N, history) or (round parameters, schedule)",
      assumptions=["mixing managed and caller-chosen ids on one connection is 'not recommended' by the doc comment but is inside the property's quantifier",
                   "acceptance of a send is only REQUIRED in the all-answered state (N sends must succeed); refusals while fewer than N are unanswered are allowed"],
@@ -189,10 +192,10 @@ prop("C09", run="^TestC09", level="exploration",
 prop("C15", run="^TestC15", level="exploration",
      quick=(16, 200, 900), thorough=(16, 5000, 7200),
      rule="sessions: topology {library client <-> library server, library client <-> raw server peer, raw client peer <-> library server} x version {2,3,4,5,DSE1,DSE2} x compression {none, LZ4, Snappy except v5} x auth on/off x 1..4 post-handshake exchanges of generated version-valid request/response frames "
-          "(up to ~330 KiB towards the library; what the library itself sends in v5 kept under one segment) x id discipline (all managed / distinct caller-chosen) x pipelining (all requests first, responses batched by the raw peer into one self-contained segment) x raw-peer segmentations (split of one envelope into 1..4+ segments at generated points, first part >= 9 bytes; LZ4-compressed or fallback segments). "
+          "(1 in 4 pairs contains a header-only envelope: OPTIONS bare or with flags, READY; up to ~330 KiB towards the library; what the library itself sends in v5 kept under one segment) x id discipline (all managed / distinct caller-chosen) x pipelining (all requests first, responses batched by the raw peer into one self-contained segment) x raw-peer segmentations (split of one envelope into 1..4+ segments at generated points, first part >= 9 bytes; LZ4-compressed or fallback segments). "
           "Raw peers use only the reference encoders/decoders and record wire conformance (handshake unframed, valid CRCs, envelopes inside segments not individually compressed, v5 envelopes not individually compressed). Oracle: frames received == frames sent (canonical equality) in both directions; bytes seen by the raw peer == reference encoding of the frame sent. "
           "Each session runs in a worker process. Non-trivial = >40 bytes exchanged and (compression or v5 or auth); distinct by session spec",
-     assumptions=["the library has no envelope splitter (documented TODO): envelopes it must SEND under v5 are kept below 131071 bytes", "EVENT responses and fatal ERROR codes (which close the connection by design) are excluded from the exchanged responses; STARTUP/OPTIONS/AUTH_RESPONSE are not re-sent after the handshake"],
+     assumptions=["the library has no envelope splitter (documented TODO): envelopes it must SEND under v5 are kept below 131071 bytes", "EVENT responses and fatal ERROR codes (which close the connection by design) are excluded from the exchanged responses; STARTUP/AUTH_RESPONSE are not re-sent after the handshake"],
      text="Randomised end-to-end exploration over real sockets with an independent raw peer on either side; worker-isolated.",
      note="Trusted: the raw peer (rawpeer_test.go) built on harness/ref; 10 s bounds on every blocking step only turn a missing delivery into a failure.",
      technique="property-based testing (rapid) of socket sessions against an independent spec-derived raw peer; subprocess isolation", design="DESIGN.md 4 C15")
@@ -200,7 +203,7 @@ prop("C15", run="^TestC15", level="exploration",
 prop("C10", run="^TestC10", level="exploration",
      quick=(8, 120, 900), thorough=(16, 5000, 7200),
      rule="shim level: ALL answer orders for k=1..5 outstanding requests (153 orders, each with a spurious response in the middle); rapid-generated interleavings for k<=12 with multi-page answers of 1..MaxPending pages (complete or cut short) and spurious responses, consumers reading after all deliveries. "
-          "Socket level (worker-isolated): library client x raw server peer, every version incl. v5 segments x compression, k<=10 tagged requests from 1..4 concurrent senders, answered in a generated order interleaved with EVENT envelopes (stream id -1) and responses for an unused stream id, responses batched into few segments or sent one by one, multi-page answers on DSE versions. "
+          "Socket level (worker-isolated): library client x raw server peer, every version incl. v5 segments x compression, k<=10 tagged requests from 1..4 concurrent senders, answered in a generated order interleaved with EVENT envelopes (stream id -1, an unused id, or the id of a request still awaiting its answer: an EVENT is recognised by its opcode) and responses for an unused stream id, responses batched into few segments or sent one by one, multi-page answers on DSE versions. "
           "Oracle: per request exactly its tagged frames in arrival order, channel closed after the last page with Err()==nil; events on the event channel and through handlers, in order, nothing else there; unknown-id responses change nothing. Non-trivial = >=2 outstanding requests or multi-page / interleaved extras; distinct by (k, pages, order) / session spec",
      assumptions=["multi-page answers never exceed MaxPending undelivered pages (beyond that the request is failed by design)"],
      text="Exhaustive small permutations plus randomised interleavings against a per-request expected-sequence oracle, at handler level and over real sockets.",
@@ -212,7 +215,8 @@ prop("C16", run="^TestC16", level="fault_enumeration",
      rule="(A) timeout clause on the in-flight handler shim: read timeout 100/200/400 ms, 0..6 non-final pages arriving every timeout/20 then silence or a final page; cases whose measured inter-page gap reached timeout/2 are discarded as noisy. "
           "(B) scripted sessions {connect, handshake, send K<=3 requests, answer some, one non-final page in progress, 0..3 receivers blocked in Receive/ReceiveEvent, optionally a goroutine hammering Send} against a library server or a raw TCP peer, with a fault {client Close, concurrent double Close, "
           "server-connection Close, server Close, context cancel, peer TCP close/reset} injected after each of the 5 step boundaries: the full (peer x fault x boundary x version in {4,5,DSE2}) matrix every run, plus rapid-generated sessions, plus rapid-generated schedules (yield / sleep / wait-until-point-reached, bounded 300 ms) "
-          "at 13 hook points of the client package. Worker-isolated. Oracle within 10 s: every accepted unanswered request has its channel closed, IsDone() and Err()!=nil; blocked receivers return; later Send fails; Close returns (twice, concurrently); no goroutine of the client package survives; no panic. "
+          "at 13 hook points of the client package. (C) faults in the MIDDLE of the handshake: a library server connection blocked in AcceptHandshake (raw client silent, after OPTIONS/SUPPORTED, or after STARTUP/AUTHENTICATE) or a library client blocked in InitiateHandshake (raw server silent after STARTUP or after AUTH_RESPONSE) x {peer FIN, peer RST, own Close, server Close, context cancel} x version x auth: "
+          "the blocked call returns a non-nil error, Close returns, no goroutine survives. Worker-isolated. Oracle within 10 s: every accepted unanswered request has its channel closed, IsDone() and Err()!=nil; blocked receivers return; later Send fails; Close returns (twice, concurrently); no goroutine of the client package survives; no panic. "
           "Non-trivial = the fault lands with an unanswered request, a blocked receiver or before the script's end; distinct by session spec",
      assumptions=["all time bounds are generous upper bounds (10 s against sub-second behaviour); only 'still not done after the bound' or a panic counts",
                   "the window inside Send's select statement (operand evaluated, channel closed by Close, then send) has no hook point and is only reachable by stress repetition"],
@@ -223,7 +227,7 @@ prop("C16", run="^TestC16", level="fault_enumeration",
 prop("C18", run="^TestC18", level="exploration", race=True,
      quick=(8, 20, 1200), thorough=(16, 1500, 10800),
      rule="rounds of 2..16 goroutines x 1..12 generated work items x 1..6 repeats on SHARED instances: one frame.RawCodec per compressor {none, LZ4, Snappy}, one segment.Codec per {none, LZ4}, the package-level message codecs, the datacodec singletons and cached nested codecs (NewCodec results shared by type), "
-          "the compressor values. Work items: frame encode+decode, segment encode+decode, message Encode/EncodedLength/Decode, CQL value Encode/Decode through a drawn representation, compress+decompress in both LZ4 formats and Snappy; per-goroutine yields drawn by rapid; all goroutines released from one barrier. "
+          "the compressor values. Work items: frame encode+decode, raw paths (ConvertToRawFrame, EncodeRawFrame, DecodeRawFrame, ConvertFromRawFrame, DecodeHeader+DiscardBody), segment encode+decode, message Encode/EncodedLength/Decode, CQL value Encode/Decode through a drawn representation, compress+decompress in both LZ4 formats and Snappy; per-goroutine yields drawn by rapid; all goroutines released from one barrier. "
           "Oracle: each concurrent result == the result of the same call made sequentially beforehand (digest of bytes, or canonical frame / abstract value where map order is free); built with -race, any race report fails the run. Every round is non-trivial (>= 2 goroutines on shared instances); distinct by round parameters and item kinds",
      assumptions=["interleavings are sampled by the Go scheduler (no hook points in the codec packages); the race detector's happens-before analysis is what exposes a shared scratch buffer without the exact overlap"],
      text="Randomised concurrent stress under the race detector with result comparison against sequential execution.",
